@@ -638,6 +638,66 @@ zs = [1, 2, 3]
 comp = [z for z in zs if (zs.pop() if z == 1 else True)]
 RESULT = (seen, grown, dres, sres, comp)
 ''', "([1, 2, 4], [1, 2, 11, 12], 'RuntimeError', 'RuntimeError', [1, 2])"),
+    ("generators-run-lazily-between-requests", '''
+LOG = []
+def drain(stack):
+    while stack:
+        batch = stack[-1]
+        if batch:
+            yield batch.pop()
+        else:
+            del stack[-1]
+stack = [[1]]
+order = []
+for v in drain(stack):
+    order.append(v)
+    if v < 4:
+        stack.append([v + 10, v + 1])
+def noisy():
+    for i in range(5):
+        LOG.append(("produce", i))
+        yield i
+first_two = []
+for x in noisy():
+    first_two.append(x)
+    if x == 1:
+        break
+def outer():
+    yield "a"
+    yield from inner()
+    yield "z"
+def inner():
+    LOG.append("inner-started")
+    yield "b"
+    return "done"
+g = outer()
+a = next(g)
+started_after_first = "inner-started" in LOG
+rest = list(g)
+def failing():
+    yield 1
+    raise ValueError("boom")
+f = failing()
+got = [next(f)]
+try:
+    next(f)
+except ValueError:
+    got.append("ValueError")
+got.append(next(f, "exhausted"))
+RESULT = (order, first_two, [e for e in LOG if e != "inner-started"], started_after_first, rest, got)
+''', "([1, 2, 3, 4, 13, 12, 11], [0, 1], [('produce', 0), ('produce', 1)], False, ['b', 'z'], [1, 'ValueError', 'exhausted'])"),
+    ("intenum-and-operator-module", '''
+import enum, functools, itertools, operator
+class Ev(enum.IntEnum):
+    HIT = 0
+    MISS = 1
+    INS = 3
+totals = [0] * (max(Ev) + 1)
+totals[Ev.MISS] += 2
+ends = itertools.chain((1, None, 2), [None, 3])
+kept = list(filter(functools.partial(operator.is_not, None), ends))
+RESULT = (len(Ev), [e.name for e in Ev], totals, Ev.MISS == 1, Ev(3) is Ev.INS, Ev.HIT.value, isinstance(Ev.HIT, int), kept, operator.contains([1, 2], 2), sorted(Ev, reverse=True)[0].name)
+''', "(3, ['HIT', 'MISS', 'INS'], [0, 2, 0, 0], True, True, 0, True, [1, 2, 3], True, 'INS')"),
 ]
 
 
